@@ -1,0 +1,32 @@
+//go:build verif
+
+// Contracts for package tsdb (checked by /verif/bin/govc; comment-only file).
+package tsdb
+
+// ---- C19: lock discipline of the store's maps (swept over every function of the package) ----
+//@ guarded Store.shards by mu
+//@ guarded Store.databases by mu
+//@ guarded Store.sfiles by mu
+//@ guarded Store.pendingShardDeletes by mu
+//@ guarded Store.epochs by mu
+//@ guarded Store.indexes by mu
+
+// helpers entered with the lock held (checked at every static call site by the sweep)
+//@ func (*Store).shardIDs
+//@   holds_r s.mu
+//@ func (*Store).shardsSlice
+//@   holds_r s.mu
+//@ func (*Store).filterShards
+//@   holds_r s.mu
+//@ func (*Store).epochsForShards
+//@   holds_r s.mu
+//@ func (*Store).createIndexIfNotExists
+//@   holds s.mu
+//@ func (*Store).openSeriesFile
+//@   holds s.mu
+//@ func (*Store).loadShards
+//@   setup_only called from Open only, inside Open's critical section, before the store is shared (its shard-opening goroutines touch no guarded field)
+//@ func (*Store).Close
+//@   setup_only teardown: after wg.Wait() the store's own goroutines are gone and, as the code says, callers must not use a store that is being closed
+//@ func (*Store).WithLogger
+//@   setup_only called while the server is assembled, before the store is opened and shared
